@@ -624,7 +624,10 @@ def rule_fmt_pure(prog):
             if set(names) == {"new_text", "text"}:
                 then_none = any(last(p["res"].get("ctor_of", "")) == "None" for p in hir.nodes(n["then"], "Path"))
                 else_edit = any((s.get("adt") or "").endswith("TextEdit") for s in hir.nodes(n.get("else") or {}, "Struct"))
-                ok = then_none and else_edit
+                # early-return form: `if new_text == text { return Ok(None); }` followed by the edit
+                early = then_none and any(True for _ in hir.nodes(n["then"], "Ret")) and not n.get("else") and \
+                    any((s.get("adt") or "").endswith("TextEdit") for s in hir.nodes(f["body"], "Struct"))
+                ok = (then_none and else_edit) or early
     out.add("formatting::format", "returns null exactly when the formatted text equals the document", ok, c.loc(f["sp"]), "")
     rng = [n for n in hir.nodes(f["body"], "Call") if (hir.callee_display(n) or "").endswith("as_pos_range")]
     ok = False
@@ -763,9 +766,21 @@ def rule_same_finder(prog):
         calls = [n for n in hir.nodes(b["body"], "Call") if (hir.callee_display(n) or "").endswith("find_referenced_identifiers")]
         sigs[fn] = [tuple((place(a) or "?").split("#")[0] for a in n["args"]) for n in calls]
         conv = [n for n in hir.nodes(b["body"], "MethodCall") if n["m"] == "to_text_range"]
-        ok = len(conv) == 1 and (place(conv[0]["args"][0]) or "").endswith("doc#" + (place(conv[0]["args"][0]) or "#").split("#")[1]) if conv else False
         tk = (place(conv[0]["args"][0]) or "") if conv else ""
-        out.add("references::" + fn, "occurrences are converted against the whole token vector", tk.split("#")[0] == "doc" and tk.endswith(".tokens"),
+        if not conv:
+            # the conversion may live in a local helper: its tokens parameter must be fed with doc.tokens
+            for call in hir.nodes(b["body"], "Call"):
+                hb = hir.local_callee_body(prog, call)
+                if hb is None:
+                    continue
+                hconv = [n for n in hir.nodes(hb["body"], "MethodCall") if n["m"] == "to_text_range"]
+                if hconv:
+                    pl = hir.path_local(hir.strip_ref(hconv[0]["args"][0]))
+                    for i_, pp in enumerate(hb["params"]):
+                        if pl and pp.get("k") == "Binding" and pp["id"] == pl["id"] and i_ < len(call["args"]):
+                            tk = place(call["args"][i_]) or ""
+        ok_tk = (tk.split("#")[0] == "doc" and tk.endswith(".tokens")) if tk else None
+        out.add("references::" + fn, "occurrences are converted against the whole token vector", ok_tk,
                 c.loc(b["sp"]), "to_text_range(%s)" % tk)
     out.add("references", "find and rename use the same finder with the same arguments",
             len(sigs["find"]) == 1 and sigs["find"] == sigs["rename"], "", "find: %s rename: %s" % (sigs["find"], sigs["rename"]))
